@@ -211,6 +211,35 @@ def run(ctx):
                       f.where(b), "size = %s" % fmt(size))
     ctx.note("R17.6: %d zero-panicking std call(s) analysed" % n_zero)
 
+    # ---- R17.7 unsigned subtraction on a background thread ------------------------------------------------
+    # `a - b` on an unsigned type panics (debug) or wraps into an out-of-range index (release) when b > a. In code
+    # that runs on the worker / consumer / sweeper such a subtraction needs a reason: a dominating test that
+    # b <= a, or a symbolic bound T with b <= T <= a (b = x % T, b drawn from 0..T, b clamped to T; a = y + T).
+    bg = set()
+    for cdef in F.spawn_closures():
+        for nid in F.insts_of(cdef):
+            bg |= {F.def_of(n) for n in F.inst_reach([nid])}
+    n_usub = 0
+    for name in sorted(bg):
+        f = F.fns.get(name)
+        if f is None:
+            continue
+        for b in sorted(f.live_blocks()):
+            for i, st in enumerate(f.blocks[b]["stmts"]):
+                if st["k"] != "assign" or st["rv"]["k"] != "binop" or st["rv"]["op"] not in ("SubWithOverflow", "Sub", "SubUnchecked"):
+                    continue
+                lty = f.locals[st["place"]["l"]]["ty"]
+                if not lty.lstrip("(").startswith(("usize", "u64", "u32", "u16", "u8", "u128")) or st["place"]["p"]:
+                    continue
+                A, B = f.op_origin(st["rv"]["a"]), f.op_origin(st["rv"]["b"])
+                n_usub += 1
+                ctx.touch(f)
+                why = unsigned_sub_safe(F, f, b, A, B)
+                ctx.check(bool(why), "R17.7", "%s|unsigned-sub|%s" % (name, short_cond(("binop", "Sub", A, B))),
+                          "an unsigned subtraction executed on a background thread cannot underflow: " + (why or "no dominating `b <= a` test and no common symbolic bound between the operands was found"),
+                          f.where(b, i), "%s - %s" % (fmt(A)[:80], fmt(B)[:80]))
+    ctx.note("R17.7: %d unsigned subtraction(s) in %d functions reachable from background threads" % (n_usub, len(bg)))
+
     # ---- R17.4 background loops --------------------------------------------------------------------------
     spawn = F.spawn_closures()
     ctx.floor("R17.4", "background thread closures", len(spawn), 3)
@@ -226,6 +255,88 @@ def run(ctx):
                 direct.append(c.where(b))
         ctx.check(not direct, "R17.4", "%s|no-direct-panic-in-thread-loop" % cdef,
                   "the body of a background thread contains no direct unwrap/expect/panic (a panic would silently end command processing, sweeping or access counting)", c.where(), str(direct))
+
+
+def _peel(e):
+    while isinstance(e, tuple) and e and e[0] == "cast":
+        e = e[1]
+    return strip_site(e)
+
+
+def lower_terms(F, f, e, depth=0):
+    """expressions T with e >= T (unsigned, the additions themselves being overflow-checked)"""
+    e = _peel(e)
+    out = {e}
+    if depth > 4:
+        return out
+    if e[0] == "const":
+        return out
+    if e[0] == "binop" and e[1] in ("Add", "AddWithOverflow"):
+        out |= lower_terms(F, f, e[2], depth + 1) | lower_terms(F, f, e[3], depth + 1)
+    if e[0] == "call" and e[1].split("::")[-1] == "max" and len(e[2]) == 2:
+        out |= lower_terms(F, f, e[2][0], depth + 1) | lower_terms(F, f, e[2][1], depth + 1)
+    if e[0] == "call" and e[1].split("::")[-1] == "clamp" and len(e[2]) == 3:
+        out |= lower_terms(F, f, e[2][1], depth + 1)
+    return out
+
+
+def upper_terms(F, f, e, depth=0):
+    """(T, strict) with e <= T (or e < T)"""
+    e = _peel(e)
+    out = {(e, False)}
+    if depth > 4:
+        return out
+    if e[0] == "binop" and e[1] == "Rem":
+        out |= {(t, True) for t, s in upper_terms(F, f, e[3], depth + 1)}
+    if e[0] == "binop" and e[1] == "BitAnd":
+        for z in (e[2], e[3]):
+            out |= upper_terms(F, f, z, depth + 1)
+    if e[0] == "call" and e[1].split("::")[-1] == "min" and len(e[2]) == 2:
+        out |= upper_terms(F, f, e[2][0], depth + 1) | upper_terms(F, f, e[2][1], depth + 1)
+    if e[0] == "call" and e[1].split("::")[-1] == "clamp" and len(e[2]) == 3:
+        out |= upper_terms(F, f, e[2][2], depth + 1)
+    # an element drawn from a range start..end
+    if e[0] == "field" and e[1][0] == "variant" and e[1][2] == "Some" and is_call_to(e[1][1], "Iterator::next", "next"):
+        it = e[1][1][2][0] if e[1][1][2] else None
+        for s_ in ([it] + list(subexprs(it)) if it else []):
+            if isinstance(s_, tuple) and s_ and s_[0] == "agg" and s_[1].endswith("Range"):
+                end = dict(s_[3]).get("end")
+                if end is not None:
+                    out |= {(t, True) for t, s in upper_terms(F, f, end, depth + 1)}
+    # a by-value capture of a closure: bounded like the value captured in the parent
+    if e[0] == "field" and e[1] in (("env",), ("upvar",)) and f.kind == "Closure":
+        from core import closure_captures
+        cc = closure_captures(F, f.name)
+        if cc and e[2] in cc[1]:
+            out |= {(t, s) for t, s in upper_terms(F, cc[0], cc[1][e[2]], depth + 1) if t[0] == "const"}
+    return out
+
+
+def unsigned_sub_safe(F, f, bb, A, B):
+    a, b = _peel(A), _peel(B)
+    if b[0] == "const" and b[1] == 0:
+        return "subtracting 0"
+    if a[0] == "const" and b[0] == "const" and isinstance(a[1], int) and isinstance(b[1], int) and a[1] >= b[1]:
+        return "constants"
+    # dominating comparison b <= a / b < a (norm_binop keeps only Lt / Le)
+    for gb, expr, tt, ft in bool_branches(f):
+        e = expr
+        if e[0] == "binop" and e[1] in ("Lt", "Le"):
+            x, y = _peel(e[2]), _peel(e[3])
+            if x == b and y == a and f.edge_dominates((gb, tt), bb):
+                return "dominated by the test %s" % fmt(e)[:60]
+            if e[1] == "Lt" and x == a and y == b and f.edge_dominates((gb, ft), bb):
+                return "dominated by the failed test %s" % fmt(e)[:60]
+    lo = lower_terms(F, f, a)
+    for t, strict in upper_terms(F, f, b):
+        if t in lo:
+            return "%s is a common bound: subtrahend <%s it <= minuend" % (fmt(t)[:50], "" if strict else "=")
+    # constant subtrahend against a provably positive minuend
+    if b[0] == "const" and isinstance(b[1], int):
+        for t in lo:
+            if t[0] == "const" and isinstance(t[1], int) and t[1] >= b[1]:
+                return "minuend >= constant %d" % t[1]
+    return None
 
 
 def short_cond(e):
